@@ -44,3 +44,11 @@ func VerifStandardizeAddress(s string) (Address, error) {
 	}
 	return a.Normalize(), nil
 }
+
+// VerifC01ServerSites returns the site configs a Server was built from (NewServer's group), in order.
+func VerifC01ServerSites(s *Server) []*SiteConfig { return s.sites }
+
+// VerifC01PrependMiddleware puts m in front of the site's middleware stack (the outermost handler).
+func VerifC01PrependMiddleware(c *SiteConfig, m Middleware) {
+	c.middleware = append([]Middleware{m}, c.middleware...)
+}
